@@ -686,7 +686,11 @@ class Interp:
                     raise AnalysisError("step budget exceeded in %s" % self.root)
                 key = (fr.fid, bb)
                 c = st.visits.get(key, 0)
-                if c >= self.policy.loop_bound:
+                bound = self.policy.loop_bound
+                if bound > 2 and fr.depth > getattr(self.policy, "deep_depth", 1):
+                    bound = 2      # the extra iteration of the thorough tier is spent on the loops of the analysed function and its direct
+                    #                callees; loops nested deeper (sketch rows, bloom locations under a batch loop) keep the quick bound
+                if c >= bound:
                     break  # cut the path at the loop bound (loop summarised by its first iterations)
                 st.visits[key] = c + 1
                 blk = fr.body["blocks"][bb]
@@ -771,6 +775,18 @@ class Interp:
         c = self.eval_operand(st, fr, t["o"])
         vals = t["vals"]
         ts = t["ts"]
+        if isinstance(c, tuple) and c[0] == "un" and c[1] == "Not" and t.get("ty") == "bool" and len(vals) == 1 and str(vals[0]) == "0":
+            # `if !x` is `if x` with the arms exchanged: facts are recorded about x itself
+            t = dict(t, ts=[t["otherwise"]], otherwise=ts[0])
+            ts = t["ts"]
+            c = c[2]
+            ci = const_int(c)
+            if ci is not None:
+                return [(st, ts[0] if ci == 0 else t["otherwise"])]
+            return self._switch_on(st, fr, t, bb, c, vals, ts)
+        return self._switch_on(st, fr, t, bb, c, vals, ts)
+
+    def _switch_on(self, st, fr, t, bb, c, vals, ts):
         ci = const_int(c)
         if ci is not None:
             for v, tb in zip(vals, ts):
